@@ -18,7 +18,7 @@ where
     sfv::sf::Wrapping<A>: serde::Serialize,
     A: PartialOrd<I40F88> + PartialOrd<U0F128>,
     I40F88: PartialOrd<A>, U0F128: PartialOrd<A>,
-    i8: PartialOrd<A>, i64: PartialOrd<A>, u128: PartialOrd<A>, f32: PartialOrd<A>, f64: PartialOrd<A>,
+    i8: PartialOrd<A>, i64: PartialOrd<A>, u128: PartialOrd<A>, f32: PartialOrd<A> + LossyFrom<A>, f64: PartialOrd<A> + LossyFrom<A>,
 {
     if c.on("cmp") || c.on("conv") {
         ints::<A, i8>(c);
